@@ -44,7 +44,7 @@ def gen_case(rng, explicit, snippet_names):
         attrs += ['[f=${1:f1}]', '[g="${2:f2} x ${4:f4}"]', '[h=${0:f0}]', '[m=${3:f3}${3:f3}]', '[n="a ${1:f1}"]']
         texts += ['a ${1:f1} b ${3:f3}', '${0:f0}', '${2:f2}${2:f2}', 'x ${5:f5}\ny ${1:f1}', 'p ${1:m1\nm2} q', '${2:r1\r\nr2}${1:s}', 'c1\rc2', 'e1\n\ne3',
                   'a ${1:t1\n} b', '${1:x\x0cy} ${2:p\x85q}', '${3:u\u2028v}w', '${1:\n\n}z', '${2:k\x0bl\x1cm}']
-        attrs += ['[o="${1:v1\nv2}"]']
+        attrs += ['[o="${1:v1\nv2}"]', '[id=${1:f1}]', '[class="k ${2:f2}"]', '[id=${1:f1} class="k ${1:f1}"]', '[class="${2:f2} ${1:f1}" id="i${3:f3}"]']
     tree = gen_abbr.gen_tree(rng, names=names, p_text=0.3, texts=texts, attrs=attrs, p_attr=0.45, p_class=0.2, p_id=0.1, p_group=0.12, p_rep=0.15,
                              max_rep=3, classes=['c1', 'c2'], ids=['i1', 'i2'], p_selfclose=0.0, **(dict(max_depth=rng.choice([2, 3, 4])) if rng.random() < 0.88 else
                                 dict(max_depth=rng.choice([8, 10, 13]), max_children=rng.choice([1, 2]), p_children=0.92)))
@@ -131,6 +131,15 @@ def check_numbering(out, explicit_or_snippet):
             marks = RE_MARK.findall(t[1])
             if marks:
                 groups.append(marks)
+            prev_open = None
+        elif t[0] == 'comment':
+            # default template `<!-- /[#ID][.CLASS] -->`: the id part and the class part are copies of two different values
+            body = t[1][4:-3].strip()
+            m = re.match(r'/?(#(?:[^.\u27e6]|\u27e6[^\u27e7]*\u27e7)*)?(\..*)?$', body, re.S)
+            for part in ((m.group(1), m.group(2)) if m else (body,)):
+                marks = RE_MARK.findall(part or '')
+                if marks:
+                    groups.append(marks)
             prev_open = None
         else:
             prev_open = None
@@ -250,7 +259,7 @@ def run_shard(desc, ctx):
             if rng.random() < 0.15:
                 opts['comment.enabled'] = True
             flags = {'explicit': explicit, 'snippet_names': snippet_names,
-                     'numbering': syntax in ('html', 'xml', 'jsx', 'vue') and not opts.get('comment.enabled')}
+                     'numbering': syntax in ('html', 'xml', 'jsx', 'vue')}
             mode = rng.choice(['id', 'double', 'wrap', 'bare'])
             if flags['numbering'] and mode != 'id':
                 mode = 'id' if rng.random() < 0.7 else mode
